@@ -69,6 +69,7 @@ Inductive vobs :=
   | OTableIds (rows : list orow)                           (* with original ids *)
   | OCsr (f : field) (ptrs cols : list Z) (vals : list (option Z)) (nrows ncols : Z)
   | OCoo (f : field) (rows cols : list Z) (vals : list (option Z)) (nrows ncols : Z)
+  | OCooIds (f : field) (uids iids : list Z) (vals : list (option Z))   (* a table restricted to one attribute, with original ids *)
   | ONnz (n : Z)
   | OUserRow (u : Z) (row : option (list orow))            (* (item id, item number, attrs) *)
   | OUserRowNum (n : Z) (row : list orow)
@@ -96,6 +97,9 @@ Definition agree_view (s : schema) (d : dataset) (v : vobs) : bool :=
   | OCoo f rows cols vals nr nc =>
       let '(r, c, x) := view_coo d f in
       eqb_ns r rows && eqb_ns c cols && eqb_ozs x vals && Z.eqb (Z.of_nat (length (d_users d))) nr && Z.eqb (Z.of_nat (length (d_items d))) nc
+  | OCooIds f uids iids vals =>
+      let '(r, c, x) := view_coo d f in
+      eqb_zs (map (term (d_users d)) r) uids && eqb_zs (map (term (d_items d)) c) iids && eqb_ozs x vals
   | ONnz n => Z.eqb (Z.of_nat (view_nnz d)) n
   | OUserRow u row =>
       match view_user_row d u, row with
